@@ -177,6 +177,11 @@ def run(repo, rep):
                     rep.fail('C12.b', '%s:comprehension:%s' % (f.qualname, src(comp.iter)[:40]), '%s:%d' % (f.module.relpath, comp.iter.lineno),
                              'comprehension in %s iterates the infinite iterator %s' % (f.name, src(comp.iter)))
     rep.floor('C12.b', n, 20)
+    # ... and the string splitter, whose progress argument is the subtlest of these loops, is run on the string corpus (texts with
+    # quotes, escapes, wide gaps, runs of combining marks; widths 1..13) by the interpreter with a bound of 4000 iterations per call:
+    # a call that is still looping then does not terminate for that text
+    from . import strmodel
+    rep.floor('C12.b:splitter', strmodel.run(repo, rep, {'pieces': 'C12.b'}), 1)
 
     # ---------------------------------------------------------------- C12.c progress floor
     n = 0
@@ -377,6 +382,32 @@ def _classify_while(lp, f):
             if exits:
                 return 'stack-pop machine (one pop per iteration, exit on empty stack)', ''
             return None, 'pops %s each iteration but has no exit on an empty stack' % stack
+    # counter loop: the test bounds a variable from below (above) and every path through the body lowers (raises) it by a positive
+    # constant:  while 0 < i < n and ...: i -= 1
+    tests_ = lp.test.values if isinstance(lp.test, ast.BoolOp) and isinstance(lp.test.op, ast.And) else [lp.test]
+    lower, upper = set(), set()
+    for t_ in tests_:
+        if isinstance(t_, ast.Compare):
+            terms_ = [t_.left] + list(t_.comparators)
+            for a_, op_, b_ in zip(terms_, t_.ops, terms_[1:]):
+                if isinstance(op_, (ast.Lt, ast.LtE)):
+                    if isinstance(b_, ast.Name):
+                        lower.add(b_.id)        # a < x : x is bounded from below
+                    if isinstance(a_, ast.Name):
+                        upper.add(a_.id)        # x < b : x is bounded from above
+                if isinstance(op_, (ast.Gt, ast.GtE)):
+                    if isinstance(a_, ast.Name):
+                        lower.add(a_.id)
+                    if isinstance(b_, ast.Name):
+                        upper.add(b_.id)
+    if lower or upper:
+        cpaths = enumerate_paths(body, '__none__', {})
+        for x_, sign_ in [(v_, '-=') for v_ in sorted(lower)] + [(v_, '+=') for v_ in sorted(upper)]:
+            def steps(p_):
+                return [e for e in p_.events if e[0] == 'set' and e[1] == x_]
+            if all(p_.end in ('return', 'break', 'raise') or
+                   (len(steps(p_)) >= 1 and all(e[2] == sign_ and e[3].isdigit() and int(e[3]) > 0 for e in steps(p_))) for p_ in cpaths):
+                return 'counter loop: %s moves by a positive constant towards the bound in the loop test on every path' % x_, ''
     # unwrap loop: while isinstance(x, ...): every path rebinds x to x.<attr>
     if isinstance(lp.test, ast.Call) and call_name(lp.test) == 'isinstance' and isinstance(lp.test.args[0], ast.Name):
         x = lp.test.args[0].id
